@@ -49,7 +49,7 @@ check('C13', 'other',
       'contract-based deductive verification with ghost fold functions + bounded stand-in', 'DESIGN.md 5-C13')
 check('C09', 'other',
       'Proved (unbounded, from any well-formed state): Node.__init__, Node.remove, Line.__init__ (explicit free pins / first free pins), Line.remove and the container primitives re-establish the well-formedness clauses W0-W6 and change exactly what they state (object-heap model). Bounded: wf class invariant after every step of edit histories over the public API (exhaustive small + seeded long) and after the rewiring transformations.',
-      'well-formed use per the property; rewiring transformations (eliminate_1to1_forks, substitute, copy, pickle) bounded only; free_index by an assumed contract',
+      'well-formed use per the property; rewiring transformations (eliminate_1to1_forks, substitute, copy, pickle) bounded only; next()/enumerate() of GrowingList.free_index by their Python semantics',
       'contract-based deductive verification on an object heap (representation invariant as pre/postcondition, loop invariant for the re-numbering) + runtime class invariant as bounded stand-in', 'DESIGN.md 5-C09')
 check('C10', 'other',
       'Proved (unbounded, one step): eliminating one 1:1 fork (loop body of eliminate_1to1_forks with Node.remove / Line.remove inlined) keeps the graph well-formed and splices the input line to the reader and pin of the output line, nothing else changes. Bounded over circuits and pin subsets, complete over input valuations (z3): every library cell and synthetic implementation shape resolves without exception, keeps wf, names/order of ports and state elements, and the observed function; copy/pickle/eliminate and compositions on the shared circuit space.',
